@@ -5,9 +5,9 @@ CONSTANTS
   PatIds = {1, 2, 3}
   TreeIds = {7}
   SortIds = {1, 2, 3, 4}
-  MaxFrom = 3
-  MaxSize = 3
-  CursorSizes = {1, 2}
+  MaxFrom = 2
+  MaxSize = 2
+  CursorSizes = {2}
   WithFacets = FALSE
   Quirk = FALSE
 INVARIANTS TypeOK ChildRequestOK TotalIsSum PageEqSizePos PageEqSize0 ActionsMatchOperator
